@@ -1908,7 +1908,7 @@ def declare_rules(ck):
 
     ck.rule("E2.const-input-not-aliased", "a local obtained as in.clone(mode) from an object reachable through a const parameter / const this and modified afterwards "
             "(from_1_to_0, sync, scale, passed as output ...) owns its value array: mode is Deep / Weak / Layout / Allocate, never Shallow (which shares the values with the const "
-            "input). Broken => the caller's input vector / matrix is changed in place on every multi-process call", 3)
+            "input). Broken => the caller's input vector / matrix is changed in place on every multi-process call", 6)
     ck.rule("E4.global-accessors", "Global::Transfer::get_mat_X forwards to the local transfer's get_mat_X (method parity)", 6)
     ck.rule("E4.global-delegate", "Global::Transfer::{prol,prol_recv,rest,rest_send,trunc,trunc_send} on the MPI parse: every path applies exactly the local operator of the same kind; "
             "the type-0 result of a restriction / truncation / prolongation is sync_0'ed on EVERY branch (with and without coarse-level muxer) before the function returns, a temporary "
